@@ -10,16 +10,29 @@
 (* decides whether every recorded step is admitted by the contract.        *)
 (* BFS over `hist` = complete enumeration of the histories of MaxOps       *)
 (* operations; -simulate = long random histories.                          *)
+(*                                                                         *)
+(* Scenario families (constant Family):                                    *)
+(*   "all"    every history of MaxOps operations;                          *)
+(*   "drain"  only the histories in which the ring RETURNS TO EMPTY: some  *)
+(*            operation takes the last node of positive weight away        *)
+(*            (Remove, or a re-add with weight 0 / 0 replicas).  The       *)
+(*            lookups after that operation and after the following ones    *)
+(*            (weight-0 re-adds on the drained ring, the first live add    *)
+(*            after it) are the "absence only when no node of positive     *)
+(*            weight is present" half of the Total clause, on a ring that  *)
+(*            has a past.  `drains` counts the returns to empty.           *)
 (***************************************************************************)
 EXTENDS ConsistentHash, Sequences, Json
 
-CONSTANTS MaxOps
+CONSTANTS MaxOps, Family
 
-VARIABLES hist
+VARIABLES hist, drains
 
-gvars == <<vars, hist>>
+gvars == <<vars, hist, drains>>
 
-GInit == Init /\ hist = <<>>
+GInit == Init /\ hist = <<>> /\ drains = 0
+
+Drains(m, o) == Live(m) # {} /\ Live(MemAfter(m, o)) = {}
 
 GOps == Ops \ {[op |-> "lookup"]}      \* every recorded step is followed by lookups anyway
 
@@ -29,10 +42,13 @@ GStep(o) ==
   /\ asg' = asg                         \* not predicted
   /\ out' = o
   /\ hist' = Append(hist, o)
+  /\ drains' = drains + (IF Drains(mem, o) THEN 1 ELSE 0)
 
 GNext == \E o \in GOps : GStep(o)
 
 GSpec == GInit /\ [][GNext]_gvars
 
-Emit == Len(hist) = MaxOps => PrintT(ToJson(hist))
+Wanted == Family = "drain" => drains > 0
+
+Emit == (Len(hist) = MaxOps /\ Wanted) => PrintT(ToJson(hist))
 =============================================================================
